@@ -1,5 +1,3 @@
-//go:build !vsreal
-
 // Package c16: the listener multiplexer routes every connection once, by prefix,
 // transparently; the header-writing connection sends its header exactly once, first.
 package c16
